@@ -610,6 +610,17 @@ func rectPair(c *mon.Case) {
 			c.Violation("rect/"+name+"/invalid-result", name+" returned an invalid rect "+llStr(x), desc())
 		}
 	}
+	// the constructors from a single point and from a centre and size: valid results that contain the point
+	if fl := s2.RectFromLatLng(pt); !fl.IsValid() {
+		c.Violation("rect/RectFromLatLng/invalid-result", "RectFromLatLng of a valid LatLng returned an invalid rect "+llStr(fl), desc())
+	} else if !fl.ContainsLatLng(pt) {
+		c.Violation("rect/RectFromLatLng/loses-point/wrong-answer", "RectFromLatLng does not contain its point", desc())
+	}
+	if cs := s2.RectFromCenterSize(pt, s2.LatLng{Lat: s1.Angle(r.Float64() * 4), Lng: s1.Angle(r.Float64() * 7)}); !cs.IsValid() {
+		c.Violation("rect/RectFromCenterSize/invalid-result", "RectFromCenterSize returned an invalid rect "+llStr(cs), desc())
+	} else if !cs.ContainsLatLng(pt) {
+		c.Violation("rect/RectFromCenterSize/loses-center/wrong-answer", "RectFromCenterSize does not contain its centre", desc())
+	}
 	lats := linProbes(A.Lat.Lo, A.Lat.Hi, B.Lat.Lo, B.Lat.Hi, U.Lat.Lo, U.Lat.Hi, I.Lat.Lo, I.Lat.Hi, float64(pt.Lat))
 	lngs := s1Probes(A.Lng, B.Lng, U.Lng, I.Lng)
 	var probes []ll
